@@ -147,6 +147,12 @@ pub open spec fn conflict_names_free(w: World, am: Map<PathBuf, Fingerprint>, bm
         &&& (w.files.contains_key(joinv(rb, ln)) ==> w.files[joinv(rb, ln)].bytes == lbytes)
     })
 }
+// (H7b) the conflict-copy name a divergent edit writes is not itself a path of the plan: otherwise the action planned
+// for that path was computed from a scan that this write has just made stale
+pub open spec fn conflict_name_not_planned(plan: Seq<(PathBuf, Action)>, am: Map<PathBuf, Fingerprint>, bm: Map<PathBuf, Fingerprint>, rel: PathV, act: Action, host: Seq<char>) -> bool {
+    (act == Action::Conflict(ConflictKind::BothChanged) && mget(am, rel) is Some && mget(bm, rel) is Some)
+        ==> forall|j: int| 0 <= j < plan.len() ==> pbv(&(#[trigger] plan[j]).0) != ln_of(am, bm, rel, host)
+}
 pub open spec fn under(root: PathV, p: PathV) -> bool { exists|x: PathV| p == #[trigger] joinv(root, x) }
 pub proof fn lemma_insert_view<V>(c0: Map<PathBuf, V>, c1: Map<PathBuf, V>, relv: PathV, v: V)
     requires exists|k: PathBuf| pbv(&k) == relv && c1 == c0.insert(k, v)
@@ -244,9 +250,11 @@ pub proof fn lemma_insert_view<V>(c0: Map<PathBuf, V>, c1: Map<PathBuf, V>, relv
                 assert(!set![pbv(&pa)].contains(pbv(&pb)));
                 assert(!is_staging(pbv(&pb)) ==> w.files.dom().contains(pbv(&pb)) == w0.files.dom().contains(pbv(&pb)));
             }
-//@at before /copy_atomic\(&lose_full, &lose_root\.join\(&loser_name\)\)/
+//@at before /let win_full = win_root\.join\(rel\);/
             let ghost lnv = pbv(&loser_name);
-            let ghost w1 = *w;
+            let ghost mut w1 = *w; let ghost mut w2 = *w; let ghost mut w3 = *w;
+//@at before /copy_atomic\(&lose_full, &lose_root\.join\(&loser_name\)\)/
+            proof { w1 = *w; w2 = *w; w3 = *w; }
             proof {
                 assert(lnv == ln_of(a@, b@, pv(rel), host@));
                 assert(lnv.len() > pv(rel).len());
@@ -260,12 +268,12 @@ pub proof fn lemma_insert_view<V>(c0: Map<PathBuf, V>, c1: Map<PathBuf, V>, relv
                 assert(joinv(pv(lose_root), lnv).len() < (joinv(pv(lose_root), lnv) + TMP()).len());
             }
 //@at before /copy_atomic\(&lose_full, &win_root\.join\(&loser_name\)\)/
-            let ghost w2 = *w;
+            proof { w2 = *w; w3 = *w; }
             proof {
                 assert(!is_staging(pbv(&lose_full)) ==> w2.files.dom().contains(pbv(&lose_full)) == w1.files.dom().contains(pbv(&lose_full)));
             }
 //@at before /copy_atomic\(&win_full, &lose_full\)/
-            let ghost w3 = *w;
+            proof { w3 = *w; }
             proof {
                 assert(!is_staging(pbv(&win_full)) ==> w3.files.dom().contains(pbv(&win_full)) == w2.files.dom().contains(pbv(&win_full)));
                 assert(!is_staging(pbv(&win_full)) ==> w2.files.dom().contains(pbv(&win_full)) == w1.files.dom().contains(pbv(&win_full)));
@@ -507,6 +515,7 @@ pub proof fn lemma_untrusted_never_deletes(a: Option<Fingerprint>, b: Option<Fin
         // C02 side condition (H7): the conflict-copy names a divergent edit is about to write are free, or already hold
         // the very bytes being preserved. Nothing in run_bisync establishes this.
         proof { assert(conflict_names_free(*w, a@, b@, pv(root_a), pv(root_b), pbv(path), *act, host@)); }
+        proof { assert(conflict_name_not_planned(plan@, a@, b@, pbv(path), *act, host@)); }
 //@at loop /for \(path, act\) in &plan/ end
         proof {
             let relv = pbv(&plan@[k].0);
